@@ -19,6 +19,9 @@ def run(ctx):
     na = rf.flow_a(ctx, cfgs, MINE, "A")
     ctx.exhaustive = True
     nb = c08.flow_b(ctx, MINE, 40 if ctx.quick else 300, 9, kinds=("clean", "anywhere", "edited"))
+    if not ctx.quick:
+        from vlib import suiteflow
+        suiteflow.judge(ctx, mine_repair=MINE)           # Flow S: the repository's own tests as trace sources
     ctx.sample({"flow": "A", "note": "cases enumerated by MC_Repair; see tlc_runs", "cases": na})
     ctx.assumptions += ["candidate lists are compared in Python string order (A<C<G<T, prefix first)"]
     return {"scope": {"flowA_cases": na, "flowB_cases": nb}}
